@@ -1,9 +1,129 @@
-(* C09/Props.v : the property theorems (statements only; proofs in Proofs*.v) *)
+(* C09/Props.v : the property theorems of C09 (statements; proofs live in Proofs*.v).
+   Routing is a transition system (ModelRouter.v): every heuristic choice of Sabre /
+   ShortestPaths (costs, seeds, look-ahead, decay, thresholds, undo) is just a choice of the next
+   op, so statements over all op sequences cover all settings. *)
 From Coq Require Import List Arith Bool Lia.
-From QV Require Import C09.Trace C09.ModelRouter C09.ProofsRouter.
+From QV Require Import C09.Trace C09.ModelRouter C09.ModelBlocks C09.ProofsRouter C09.ProofsSem
+                       C09.ProofsGuards C09.ProofsBlocks.
 Import ListNotations.
 
+(* 1. the two maps stay mutually inverse bijections of 0..n-1 (the final layout is a bijection),
+      for every op sequence, guarded or not *)
 Theorem route_layout_bijective : forall n chk items ops s,
   run n chk (init n items) ops = Some s -> wf_maps n (l2p s) (p2l s).
 Proof. exact route_maps_bijective. Qed.
 Print Assumptions route_layout_bijective.
+
+(* 2. every two-qubit gate of the routed circuit (inserted SWAPs included) is on an edge *)
+Theorem route_edges_ok : forall n G items ops s,
+  wf_items n items ->
+  run n (full_guard G) (init n items) ops = Some s ->
+  forallb (gate_on_edge G) (eflat (out s)) = true.
+Proof. exact route_edges. Qed.
+Print Assumptions route_edges_ok.
+
+(* 3. un-routing (reading the output back through the evolving p2l map, deleting inserted
+      SWAPs) gives exactly the executed blocks, in execution order *)
+Theorem route_unroute_ok : forall n chk items ops s,
+  run n chk (init n items) ops = Some s ->
+  unroute n (out s) = (flat_map igates (done s), p2l s).
+Proof. exact route_unroute. Qed.
+Print Assumptions route_unroute_ok.
+
+(* 4. the executed blocks followed by the remaining ones are a reordering of the input that
+      only exchanges gates on disjoint qubits *)
+Theorem route_linearisation_ok : forall n G items ops s,
+  wf_items n items ->
+  run n (full_guard G) (init n items) ops = Some s ->
+  teq Dgate (flat_map igates items) (flat_map igates (done s ++ rem s)).
+Proof. exact route_linearisation. Qed.
+Print Assumptions route_linearisation_ok.
+
+Theorem route_unroute_equiv_ok : forall n G items ops s,
+  wf_items n items ->
+  run n (full_guard G) (init n items) ops = Some s -> rem s = [] ->
+  teq Dgate (flat_map igates items) (fst (unroute n (out s))).
+Proof. exact route_unroute_equiv. Qed.
+Print Assumptions route_unroute_equiv_ok.
+
+(* 5. operator statement: out = P_layout . in, in every permutation-equivariant interpretation
+      of the gates in which disjoint gates commute; final measurements re-attached through the
+      final layout are included *)
+Theorem routing_ok : forall n (I : interp n) G items finals ops s,
+  wf_items n items ->
+  (forall g q, In g finals -> In q (gqs g) -> q < n) ->
+  run n (full_guard G) (init n items) ops = Some s -> rem s = [] ->
+  forall x,
+    ieq n I (irun I (eflat (out s) ++ append_final (l2p s) finals) x)
+            (ipact n I (at_ (final_layout s)) (irun I (flat_map igates items ++ finals) x)).
+Proof. exact routing_sem_interp. Qed.
+Print Assumptions routing_ok.
+
+(* 6. swap guards of the routers *)
+Theorem swap_guard_Sabre : forall n G s a b,
+  graph_ok n G -> wf_maps n (l2p s) (p2l s) ->
+  (forall it q, In it (rem s) -> In q (iqs it) -> q < n) ->
+  In (a, b) (swap_candidates G s) ->
+  guard_edge G s (OSwap a b) = true /\ a < n /\ b < n /\ a <> b.
+Proof. exact swap_guard_Sabre_candidates. Qed.
+Print Assumptions swap_guard_Sabre.
+
+Theorem swap_guard_Sabre_shortest_path_routing : forall n G path s,
+  graph_ok n G -> wf_maps n (l2p s) (p2l s) -> is_path G path = true -> 2 <= length path ->
+  exists s', apply_swaps n (guard_edge G) s (sabre_sp_ops path (at_ (p2l s) (hd 0 path))) = Some s'.
+Proof. exact swap_guard_Sabre_shortest_path. Qed.
+Print Assumptions swap_guard_Sabre_shortest_path_routing.
+
+(* the full-strength statement "every swap ShortestPaths._add_swaps proposes along a path of the
+   graph meets the edge guard" is FALSE of the faithful model: witness line 0-1-2-3-4-5,
+   path [0..5], meeting point 2 -> physical swaps (1,0) (2,0) (4,5) (3,5) *)
+Theorem swap_guard_ShortestPaths_refuted :
+  exists n G path mp s,
+    graph_ok n G /\ wf_maps n (l2p s) (p2l s) /\ is_path G path = true /\ mp < length path - 1 /\
+    apply_swaps n no_guard s (add_swaps_ops path mp) <> None /\
+    apply_swaps n (guard_edge G) s (add_swaps_ops path mp) = None.
+Proof.
+  exists 6, line6, [0;1;2;3;4;5], 2, (init 6 []).
+  destruct swap_guard_ShortestPaths_refuted_witness as (P & A & B).
+  split; [|split; [|split; [|split; [|split]]]].
+  - intros e0 He. cbn in He. repeat (destruct He as [<-|He]; [cbn; lia|]). destruct He.
+  - apply wf_maps_init.
+  - exact P.
+  - cbn. lia.
+  - intro E. rewrite E in A. discriminate.
+  - exact B.
+Qed.
+Print Assumptions swap_guard_ShortestPaths_refuted.
+
+(* the repaired _add_swaps (swap consecutive path nodes) meets the guard on every path *)
+Theorem swap_guard_ShortestPaths_repaired : forall n G path mp s,
+  graph_ok n G -> wf_maps n (l2p s) (p2l s) -> is_path G path = true ->
+  exists s', apply_swaps n (guard_edge G) s (add_swaps_fixed_ops path mp) = Some s'.
+Proof. exact swap_guard_ShortestPaths_fixed. Qed.
+Print Assumptions swap_guard_ShortestPaths_repaired.
+
+(* 7. the reorder checker run on every block decomposition is sound *)
+Theorem reorder_check_sound : forall c c',
+  reorder_ok c c' = true -> teq Dgate c c'.
+Proof. exact reorder_ok_sound. Qed.
+Print Assumptions reorder_check_sound.
+
+(* ---- non-vacuity *)
+(* a guarded run that needs a SWAP: line 0-1-2, one block CZ(0,2) *)
+Example route_example :
+  let G := [(0,1); (1,2)] in
+  let items := [mkI 0 [0;2] [mkG KU 1 [0;2]]] in
+  wf_item 3 (hd (mkI 0 [] []) items) = true /\
+  exists s, run 3 (full_guard G) (init 3 items) [OSwap 0 1; OExec 0] = Some s /\ rem s = [] /\
+            eflat (out s) = [mkG KU 0 [0;1]; mkG KU 1 [1;2]] /\ final_layout s = [1;0;2].
+Proof. cbv zeta. split; [reflexivity|]. eexists. split; [vm_compute; reflexivity|]. repeat split. Qed.
+
+(* the hypotheses of routing_ok are satisfiable: an interpretation exists *)
+Example interp_inhabited : forall n, exists I : interp n, True.
+Proof. intro n. exists (trivial_interp n). exact I. Qed.
+
+(* an unguarded exec (block not in the front layer) is rejected by the guard *)
+Example front_guard_rejects :
+  let items := [mkI 0 [0;1] [mkG KU 1 [0;1]]; mkI 1 [1;2] [mkG KU 2 [1;2]]] in
+  run 3 (full_guard [(0,1);(1,2)]) (init 3 items) [OExec 1] = None.
+Proof. reflexivity. Qed.
